@@ -56,6 +56,7 @@ type StopObs struct {
 	AfterReturn     int32
 	LateCalls       int32
 	DumpSeen        bool
+	CauseFired      bool // the stop cause demonstrably reached the library
 }
 
 const stopBound = 3 * time.Second
@@ -268,7 +269,11 @@ func runStop(c *StopCase) *StopObs {
 			return nil
 		}
 		if innerHandler != nil && f.Kind != "cancel_in" {
-			return innerHandler(tx, st)
+			err := innerHandler(tx, st)
+			if err != nil {
+				obs.CauseFired = true
+			}
+			return err
 		}
 		return nil
 	}
@@ -327,6 +332,23 @@ func runStop(c *StopCase) *StopObs {
 	switch f.Kind {
 	case "fin", "rst", "short":
 		obs.MasterClosed = true
+	}
+	switch {
+	case f.Kind == "mapper_err" || f.Kind == "mapper_cols":
+		ss.mp.mu.Lock()
+		obs.CauseFired = ss.mp.fired
+		ss.mp.mu.Unlock()
+	case isMasterFault(f.Kind):
+		// the faulty step (index At, clamped) was written out completely
+		at := f.At
+		st.mu.Lock()
+		if at > st.steps-1 {
+			at = st.steps - 1
+		}
+		st.mu.Unlock()
+		obs.CauseFired = obs.DumpSeen && plan.Written() > at
+	case f.Kind == "refuse" || f.Kind == "err_handshake" || f.Kind == "err_query":
+		obs.CauseFired = true
 	}
 
 	// no library goroutine may remain
